@@ -29,10 +29,12 @@ type Profile struct {
 	FlushExtra, EndExtra                                    []string // templates with %F = file id
 	KeyOnlyReads                                            bool     // C19: bracket key-only ops with rmark/kreads
 	Iter, SetRoot, SnapRevert, Write, Blocks                int
+	Forge                                                   int // weight of a composite step: flush; [one item whose value forges a root record at its own offset]; flush; revertspec (1-3 times)
 	Any                                                     int // weight of a step through the convenience API: SetAny/GetAny/DeleteAny/ExistAny (keys of every type toBa accepts), Set (random priority), Name, Stats
 	MemOnly                                                 int // percent of histories on a memory-only store
 	MaxColls                                                int
 	BigVals                                                 bool
+	LongNames                                               bool // one history in five gets a collection name of 4100-4300 bytes: a root record longer than 4 KiB
 	NoFold                                                  bool // do not use case-folding collections
 	NoLowerOverwrite                                        bool // never overwrite a key with a lower priority (C13 heap order)
 	DistinctPrio                                            bool
@@ -107,10 +109,20 @@ func (g *Gen) val() []byte {
 		return []byte("0g1t2r0g1t2r")
 	case x < 90:
 		return []byte("xx3e4a5p3e4a5pyy0g1t2r")
+	case x < 93:
+		// a value that is itself a well-formed root record (think of a backup of another store kept
+		// as a value): complete in every field, but its trailer names an offset it does not lie at
+		return framedRecord(int64(7+r.Intn(3)), []byte(`{"inner":{"o":0,"l":0}}`))
 	default:
 		n := 20 + r.Intn(60)
-		if g.p.BigVals && r.Intn(4) == 0 {
-			n = 1000 + r.Intn(3000)
+		if g.p.BigVals {
+			switch r.Intn(4) {
+			case 0:
+				n = 1000 + r.Intn(3000)
+			case 1:
+				// around a power of two, so that header + key + value straddles it
+				n = (1 << uint(9+r.Intn(4))) - 40 + r.Intn(50)
+			}
 		}
 		b := make([]byte, n)
 		for i := range b {
@@ -243,6 +255,9 @@ func (g *Gen) history() []string {
 		if len(g.namePool) >= nn {
 			break
 		}
+	}
+	if g.p.LongNames && r.Intn(5) == 0 {
+		g.namePool = append(g.namePool, "L"+strings.Repeat("n", 4100+r.Intn(200)))
 	}
 	g.emit("reset")
 	cfg := 0
@@ -697,7 +712,11 @@ func (g *Gen) history() []string {
 					return
 				}
 				sd, pr := seedPrio()
-				g.emit("setr %d %s %s %s %d %d", s.sid, hx([]byte(g.pickName(s, true))), hx(g.key()), hx(g.val()), sd, pr)
+				v := hx(g.val())
+				if r.Intn(10) == 0 {
+					v = "-" // a nil value: rejected by SetItem, so it must be rejected here too
+				}
+				g.emit("setr %d %s %s %s %d %d", s.sid, hx([]byte(g.pickName(s, true))), hx(g.key()), v, sd, pr)
 			case x < 68:
 				s := g.pickStore(false)
 				g.emit("geta %d %s %s", s.sid, hx([]byte(g.pickName(s, true))), anyTok())
@@ -738,6 +757,33 @@ func (g *Gen) history() []string {
 					return
 				}
 				g.emit("fsize %d", s.sid)
+			}
+		}},
+		{p.Forge, func() {
+			s := g.pickStore(true)
+			if s == nil || s.mem {
+				return
+			}
+			nm := g.pickName(s, true)
+			hn := hx([]byte(nm))
+			g.emit("flush %d", s.sid)
+			switch r.Intn(3) {
+			case 0:
+				k := g.key()
+				g.emit("setforge %d %s %s %d", s.sid, hn, hx(k), g.prio(nm, k))
+			default: // an ordinary flush to revert over
+				k := g.key()
+				g.emit("set %d %s %s %s %d", s.sid, hn, hx(k), hx(g.val()), g.prio(nm, k))
+			}
+			g.emit("flush %d", s.sid)
+			for i := 0; i < 1+r.Intn(3); i++ {
+				g.emit("revertspec %d", s.sid)
+			}
+			g.emit("dump %d", s.sid)
+			g.emit("names %d", s.sid)
+			// the names the generator believes in may be gone now
+			for n := range s.names {
+				delete(s.names, n)
 			}
 		}},
 		{p.Chain, func() {
@@ -989,6 +1035,10 @@ func bracketKeyOnly(lines []string) []string {
 			keyOnly = f[3] == "0"
 		case "visit":
 			keyOnly = f[5] == "0"
+		case "iter":
+			keyOnly = f[5] == "0"
+		case "blocks":
+			keyOnly = f[3] == "0"
 		}
 		if len(f) < 2 {
 			out = append(out, l)
